@@ -100,7 +100,31 @@ Definition centre_scale (ms : list module) : Qc :=
                         | Some (x, y) => Qcmax a (x * x + y * y)
                         | None => a end) ms 1.
 
+(* the round trip on the model itself: reading what the model writes gives the
+   same modules, nets and epsilons, and the same document again *)
+Definition module_eqb (a b : module) : bool :=
+  String.eqb (m_name a) (m_name b) &&
+  opt_eqb (pair_eqb Qceqb Qceqb) (m_center a) (m_center b) &&
+  opt_eqb (pair_eqb Qceqb Qceqb) (m_ar a) (m_ar b) &&
+  Bool.eqb (m_terminal a) (m_terminal b) && Bool.eqb (m_hard a) (m_hard b) &&
+  Bool.eqb (m_fixed a) (m_fixed b) && Bool.eqb (m_flip a) (m_flip b) &&
+  list_eqb (pair_eqb String.eqb Qceqb) (m_area a) (m_area b) &&
+  list_eqb mrect_eqb (m_rects a) (m_rects b).
+
+Definition rt_model (epsdef : option (Qc * Qc)) (t : ytree) : bool :=
+  match read_netlist sqrt_a epsdef t with
+  | Reject _ => true
+  | Ok n =>
+      match read_netlist sqrt_a epsdef (write_netlist n) with
+      | Ok n' => list_eqb module_eqb (nl_modules n') (nl_modules n) &&
+                 list_eqb net_eqb (nl_nets n') (nl_nets n) &&
+                 opt_eqb (pair_eqb Qceqb Qceqb) (nl_eps n') (nl_eps n)
+      | Reject _ => false
+      end
+  end.
+
 Definition check_case (epsdef : option (Qc * Qc)) (t : ytree) (o : observed) : bool :=
+  rt_model epsdef t &&
   match read_netlist sqrt_a epsdef t, o with
   | Reject r, ORejected l => is_nil l || reason_in r l
   | Ok n, OLoaded ms nets rects eps written sqd =>
